@@ -153,6 +153,160 @@ func c05OpSingle(tr *Trace, os []*c05Order, p sdkmath.LegacyDec) {
 	tr.Line("amm.op", "single", c05Raw(p), fma, outcome, qcd, c05Results(os))
 }
 
+// the keeper's first batch of a pair (no last price): FindMatchPrice on the book's view, then MatchAtSinglePrice at that price
+func c05OpFirst(tr *Trace, os []*c05Order, prec int) {
+	snap := c05Snapshot(os)
+	var fmp, outcome, qcd = "none", "", "-"
+	panicked, _ := try(func() {
+		ob := amm.NewOrderBook(c05Objs(os)...)
+		mp, found := amm.FindMatchPrice(ob.MakeView(), prec)
+		if !found {
+			outcome = "nomatch"
+			return
+		}
+		fmp = c05Raw(mp)
+		q, matched := ob.MatchAtSinglePrice(mp)
+		if matched {
+			outcome = "ok"
+			qcd = q.String()
+		} else {
+			outcome = "nomatch"
+		}
+	})
+	if panicked {
+		outcome = "panic"
+	}
+	if fmp == "none" {
+		tr.Count("first:price-none")
+	} else {
+		tr.Count("first:price-found:" + outcome)
+	}
+	c05Stats(tr, os, snap, true)
+	tr.Line("amm.op", "first", strconv.Itoa(prec), fmp, outcome, qcd, c05Results(os))
+}
+
+// read-only checks of the order-book view and of FindMatchPrice (kind amm.fmpx: a precision other than the one the order
+// prices are ticks of — compared, not monitored)
+func c05ViewLines(tr *Trace, g *c05Gen, os []*c05Order) {
+	r := g.rng
+	ob := amm.NewOrderBook(c05Objs(os)...)
+	v := ob.MakeView()
+	sh := func(d sdkmath.LegacyDec, f bool) string {
+		if !f {
+			return "none"
+		}
+		return c05Raw(d)
+	}
+	n := 1 + r.Intn(3)
+	for k := 0; k < n; k++ {
+		p := g.opPrice(os)
+		if r.Chance(20) {
+			p = p.Add(sdkmath.LegacyNewDecWithPrec(int64(r.Intn(3)-1), 18)) // one raw unit off a tick
+		}
+		hb, f1 := v.HighestBuyPrice()
+		ls, f2 := v.LowestSellPrice()
+		tr.Line("amm.view", c05Raw(p), sh(hb, f1), sh(ls, f2), v.BuyAmountOver(p, true).String(), v.SellAmountUnder(p, true).String())
+	}
+	mp, found := amm.FindMatchPrice(v, g.prec)
+	tr.Line("amm.fmp", strconv.Itoa(g.prec), sh(mp, found))
+	if found {
+		tr.Count("fmp:found")
+	} else {
+		tr.Count("fmp:none")
+	}
+	if r.Chance(30) {
+		prec := 1 + r.Intn(5)
+		if prec != g.prec {
+			var mp2 sdkmath.LegacyDec
+			found2 := false
+			panicked, _ := try(func() { mp2, found2 = amm.FindMatchPrice(v, prec) })
+			if !panicked {
+				tr.Line("amm.fmpx", strconv.Itoa(prec), sh(mp2, found2))
+				tr.Count("fmp:other-precision")
+			}
+		}
+	}
+}
+
+// tick.go primitives on boundary-directed and random arguments
+func c05TickLines(tr *Trace, r *Rng, n int) {
+	for k := 0; k < n; k++ {
+		prec := r.Intn(6)
+		if k%7 == 0 {
+			tr.Line("amm.tk", "hi", strconv.Itoa(prec), "0", c05Raw(amm.HighestTick(prec)))
+			tr.Line("amm.tk", "lo", strconv.Itoa(prec), "0", c05Raw(amm.LowestTick(prec)))
+		}
+		// a price: 10^e * m with m around interesting mantissas, then small raw perturbations
+		e := r.Intn(40)
+		var raw sdkmath.Int
+		switch r.Intn(5) {
+		case 0:
+			raw = c05Pow10(e)
+		case 1:
+			raw = c05Pow10(e).MulRaw(int64(1 + r.Intn(9)))
+		case 2:
+			raw = c05Pow10(e).MulRaw(int64(1 + r.Intn(999999)))
+		case 3:
+			raw = c05Pow10(e + 1).SubRaw(1)
+		default:
+			raw = sdkmath.NewIntFromUint64(r.U64() >> uint(r.Intn(60))).AddRaw(1)
+		}
+		raw = raw.AddRaw(int64(r.Intn(5) - 2))
+		if !raw.IsPositive() {
+			raw = sdkmath.OneInt()
+		}
+		price := sdkmath.LegacyNewDecFromIntWithPrec(raw, 18)
+		ps, rs := strconv.Itoa(prec), raw.String()
+		for _, fn := range []string{"down", "up", "ptup", "dn", "round", "toidx"} {
+			var out string
+			panicked, _ := try(func() {
+				switch fn {
+				case "down":
+					out = c05Raw(amm.PriceToDownTick(price, prec))
+				case "up":
+					out = c05Raw(amm.UpTick(price, prec))
+				case "ptup":
+					out = c05Raw(amm.PriceToUpTick(price, prec))
+				case "dn":
+					out = c05Raw(amm.DownTick(price, prec))
+				case "round":
+					out = c05Raw(amm.RoundPrice(price, prec))
+				case "toidx":
+					out = strconv.Itoa(amm.TickToIndex(amm.PriceToDownTick(price, prec), prec))
+					rs = c05Raw(amm.PriceToDownTick(price, prec))
+				}
+			})
+			if panicked {
+				tr.Count("tk:panic:" + fn)
+				continue
+			}
+			if fn == "round" && raw.LT(c05Pow10(prec)) {
+				continue // below the lowest tick RoundPrice indexes a negative tick (never reached: prices are >= the lowest tick)
+			}
+			tr.Line("amm.tk", fn, ps, rs, out)
+			rs = raw.String()
+		}
+		// indices: random, decade boundaries, and -1 (evaluated by the downward walk of FindMatchPrice at index 0)
+		hi := amm.TickToIndex(amm.HighestTick(prec), prec)
+		p10 := 1
+		for q := 0; q < prec; q++ {
+			p10 *= 10
+		}
+		var idx int
+		switch r.Intn(4) {
+		case 0:
+			idx = r.Intn(hi + 1)
+		case 1:
+			idx = 9*p10*r.Intn(40) + r.Intn(3) - 1
+		case 2:
+			idx = -1
+		default:
+			idx = hi - r.Intn(5)
+		}
+		tr.Line("amm.tk", "fromidx", ps, strconv.Itoa(idx), c05Raw(amm.TickFromIndex(idx, prec)))
+	}
+}
+
 func c05OpMatch(tr *Trace, os []*c05Order, lp sdkmath.LegacyDec) {
 	snap := c05Snapshot(os)
 	var dir, outcome, mp, qcd = "0", "", "-", "-"
@@ -416,20 +570,11 @@ func (g *c05Gen) op(tr *Trace, os []*c05Order) {
 	case c < 45:
 		c05OpMatch(tr, os, g.opPrice(os))
 	case c < 80:
-		p := g.opPrice(os)
 		if r.Chance(40) {
-			// the keeper's first batch of a pair: the price comes from the REAL FindMatchPrice (an external input of the model)
-			var mp sdkmath.LegacyDec
-			found := false
-			try(func() { mp, found = amm.FindMatchPrice(amm.NewOrderBook(c05Objs(os)...).MakeView(), g.prec) })
-			if found && mp.IsPositive() {
-				p = mp
-				tr.Count("single:price-from-FindMatchPrice")
-			} else {
-				tr.Count("single:FindMatchPrice-none")
-			}
+			c05OpFirst(tr, os, g.prec)
+		} else {
+			c05OpSingle(tr, os, g.opPrice(os))
 		}
-		c05OpSingle(tr, os, p)
 	case c < 92:
 		// DistributeOrderAmountToOrders directly on the orders of one side, at a common price
 		p := g.opPrice(os)
@@ -634,6 +779,8 @@ func TestC05(t *testing.T) {
 		c05OpMatch(tr, os, one)
 	}
 
+	c05TickLines(tr, rng, scale(3000, 60000))
+
 	g := &c05Gen{rng: rng}
 	books := scale(40000, 600000)
 	for b := 0; b < books; b++ {
@@ -654,6 +801,9 @@ func TestC05(t *testing.T) {
 			tr.Count("case:book")
 		}
 		c05Begin(tr, os)
+		if rng.Chance(35) {
+			c05ViewLines(tr, g, os)
+		}
 		g.op(tr, os)
 		for rng.Chance(25) { // further calls on the mutated orders (states with paid > 0, open < amount)
 			tr.Count("op:follow-up")
